@@ -331,6 +331,11 @@ def groups(tier, seed):
     yield {'cases': [{'kind': 'compact-underscore', 'a': a, 'b': b} for a, b in (('line_count*2', 'line_count * 2'), ('line_count+1', 'line_count + 1'),
                                                                                   ('2*line_count', '2 * line_count'), ('line_count%2', 'line_count % 2'),
                                                                                   ('length(name)*line_count', 'length(name) * line_count'))]}
+    # two calls that differ only in how a literal is spelt (each is its own text)
+    yield {'cases': [{'kind': 'literal-spelling', 'a': a, 'b': b} for a, b in (
+        ("concat(name, '.1')", "concat(name, '.10')"), ('concat(size, 07)', 'concat(size, 7)'), ('concat(name, 5)', 'concat(name, 5.0)'), ("concat('0x', 010)", "concat('0x', 10)"),
+        ("length(concat(size, 07))", "length(concat(size, 7))"), ("concat(name, '1e3')", "concat(name, '1000')"), ("upper(concat('v', '1.0'))", "upper(concat('v', '1'))"),
+        ("concat(name, ' ', '+5')", "concat(name, ' ', '5')"))]}
     # an operator glued to its left operand only, a size literal as operand, a sign in front of a bracket
     yield {'cases': [{'kind': 'compact-underscore', 'a': a, 'b': b} for a, b in (
         ('size* 2', 'size * 2'), ('size+ 1', 'size + 1'), ('10- 4- 3', '10 - 4 - 3'), ('2- -3', '2 - -3'), ('size/ 2', 'size / 2'), ('size% 2', 'size % 2'), ('hardlinks* size', 'hardlinks * size'),
@@ -400,6 +405,21 @@ def eval_group(env, group, tier):
             r = {'case': c, 'layer': kind + (':k=%d' % c['k'] if 'k' in c else '')}
             if kind == 'company':
                 outs.append(company(env, root, c, r, len(ents)))
+                continue
+            if kind == 'literal-spelling':
+                qa, qb, qab = ('name, %s where is_file = true into list' % c['a'], 'name, %s where is_file = true into list' % c['b'],
+                               'name, %s, %s where is_file = true into list' % (c['a'], c['b']))
+                oa, ob, oab = env.run([qa], cwd=root), env.run([qb], cwd=root), env.run([qab], cwd=root)
+                da, db = dict(oa.rows(2) or []), dict(ob.rows(2) or [])
+                rows = oab.rows(3) or []
+                r['nt'] = True
+                r['trans'] = len(rows)
+                bad = [x for x in rows if x[1] != da.get(x[0]) or x[2] != db.get(x[0])]
+                if oab.rc != 0 or oab.err or not rows or bad or da == db:
+                    r.update(status='viol', cls='value:literal-spelling', sig=('litspell',), detail={'query': qab, 'row': bad[:1], 'alone': [da.get(bad[0][0]), db.get(bad[0][0])] if bad else None})
+                else:
+                    r.update(status='ok', sig=('litspell', c['a']))
+                outs.append(r)
                 continue
             if kind == 'compact-underscore':
                 q = 'name, %s, %s where is_file = true into list' % (c['a'], c['b'])
